@@ -1150,6 +1150,339 @@ Proof.
   change (rev g ++ [r]) with (rev (r :: g)). rewrite is_nil_rev by discriminate. rewrite !rev_involutive. reflexivity.
 Qed.
 
+(* ------------------------------------------------------------------ render variants: tight empty cells,
+   arbitrary separator after \row *)
+Hypothesis wd125 : is_word 125 = false.
+Ltac slia2 := clear wd125; slia.
+
+Definition pre_gen (tight : bool) (t : str) : str := if tight && is_nil t then [] else 32%N :: t.
+Definition body_gen (tight : bool) (cells : list str) : str :=
+  concat (map (fun t => pre_gen tight t ++ 92%N :: K_cell) cells).
+Definition Rrow_gen (tight : bool) (cells : list str) : str :=
+  92%N :: K_trowd ++ body_gen tight cells ++ 92%N :: K_row.
+
+Lemma cell_text_nil : rtf_cell_text is_ws [] = [].
+Proof. reflexivity. Qed.
+Lemma cell_text_trowd_only : rtf_cell_text is_ws (92%N :: K_trowd) = [].
+Proof. vm_compute. reflexivity. Qed.
+
+Section Gen.
+Variable tight : bool.
+
+Lemma body_gen_cons t cs : body_gen tight (t :: cs) = pre_gen tight t ++ 92%N :: K_cell ++ body_gen tight cs.
+Proof. unfold body_gen. cbn [map concat]. rewrite <- app_assoc. reflexivity. Qed.
+
+Lemma pre_gen_nobs t : plain t = true -> forallb nobs (pre_gen tight t) = true.
+Proof.
+  intro H. destruct (plain_parts t H) as (H1 & _). unfold pre_gen. destruct (tight && is_nil t); [reflexivity|].
+  cbn [forallb]. rewrite (pchars_nobs _ H1). reflexivity.
+Qed.
+
+Lemma cell_text_pre t : plain t = true -> rtf_cell_text is_ws (pre_gen tight t) = t.
+Proof.
+  intro H. unfold pre_gen. destruct (tight && is_nil t) eqn:E; [|apply (rtf_cell_text_plain t H)].
+  apply andb_true_iff in E as [_ E]. destruct t; [apply cell_text_nil|discriminate].
+Qed.
+
+Lemma cell_text_first_pre t : plain t = true -> rtf_cell_text is_ws (92%N :: K_trowd ++ pre_gen tight t) = t.
+Proof.
+  intro H. unfold pre_gen. destruct (tight && is_nil t) eqn:E; [|apply (rtf_cell_text_first' t H)].
+  apply andb_true_iff in E as [_ E]. destruct t; [|discriminate]. rewrite app_nil_r. apply cell_text_trowd_only.
+Qed.
+
+Lemma body_gen_tail_head cs d y : is_word d = false ->
+  exists d' z, body_gen tight cs ++ d :: y = d' :: z /\ is_word d' = false.
+Proof.
+  intro H. destruct cs as [|t cs]; [exists d, y; split; [reflexivity|exact H]|].
+  rewrite body_gen_cons. unfold pre_gen. destruct (tight && is_nil t); cbn [app]; eexists _, _; split;
+    try reflexivity; assumption.
+Qed.
+
+Lemma split_body_step_gen t cs cur d y : plain t = true -> is_word d = false ->
+  re_split m_cell 0 cur (body_gen tight (t :: cs) ++ d :: y)
+  = (rev cur ++ pre_gen tight t) :: re_split m_cell 0 [] (body_gen tight cs ++ d :: y).
+Proof.
+  intros H Hd. rewrite body_gen_cons, <- app_assoc.
+  rewrite (rs_none_app _ nobs _ (pre_gen tight t)); [| apply m_word_b_nobs | apply pre_gen_nobs, H].
+  destruct (body_gen_tail_head cs d y Hd) as (d' & z & E & Hd').
+  cbn [app]. rewrite <- app_assoc, E. cbn [re_split]. rewrite (m_word_b_hit is_word K_cell d' z Hd').
+  cbn [pred]. rewrite rs_skip. rewrite rev_app_distr, rev_involutive. reflexivity.
+Qed.
+
+Lemma split_body_gen cs d y : forallb plain cs = true -> is_word d = false ->
+  re_split m_cell 0 [] (body_gen tight cs ++ d :: y) = map (pre_gen tight) cs ++ re_split m_cell 0 [] (d :: y).
+Proof.
+  intros H Hd. induction cs as [|t cs IH]; [reflexivity|]. cbn [forallb] in H. apply andb_true_iff in H as [Ht Hc].
+  rewrite (split_body_step_gen t cs [] d y Ht Hd), (IH Hc). reflexivity.
+Qed.
+
+Lemma split_row_gen t cs : forallb plain (t :: cs) = true ->
+  re_split m_cell 0 [] (Rrow_gen tight (t :: cs))
+  = ((92%N :: K_trowd ++ pre_gen tight t) :: map (pre_gen tight) cs) ++ [92%N :: K_row].
+Proof.
+  intro H. cbn [forallb] in H. apply andb_true_iff in H as [Ht Hc]. unfold Rrow_gen.
+  cbn [re_split]. rewrite m_word_b_miss by reflexivity.
+  rewrite (rs_none_app _ nobs _ K_trowd); [| apply m_word_b_nobs | reflexivity].
+  rewrite (split_body_step_gen t cs _ 92%N K_row Ht wd92), (split_body_gen cs 92%N K_row Hc wd92), split_row_tail.
+  reflexivity.
+Qed.
+
+Lemma row_cells_Rrow_gen cells : cells <> [] -> forallb plain cells = true ->
+  rtf_row_cells is_ws is_word (Rrow_gen tight cells) = cells.
+Proof.
+  intros Hne H. destruct cells as [|t cs]; [congruence|]. unfold rtf_row_cells.
+  change (s "cell") with K_cell. rewrite (split_row_gen t cs H), removelast_last. cbn [map forallb] in *.
+  apply andb_true_iff in H as [Ht Hc]. rewrite (cell_text_first_pre t Ht). f_equal.
+  rewrite map_map. rewrite <- (map_id cs) at 2. apply map_ext_in. intros a Ha.
+  apply (cell_text_pre a). revert a Ha. apply forallb_forall, Hc.
+Qed.
+
+Lemma body_gen_length t cs :
+  length (body_gen tight (t :: cs)) = length (pre_gen tight t) + 5 + length (body_gen tight cs).
+Proof. rewrite body_gen_cons, app_length. cbn [length]. rewrite app_length. cbn [length K_cell]. slia2. Qed.
+
+Lemma Rrow_gen_length r : length (Rrow_gen tight r) = length (body_gen tight r) + 10.
+Proof. unfold Rrow_gen. cbn [length]. rewrite !app_length. cbn [length K_trowd K_row]. slia2. Qed.
+
+Lemma Rrow_gen_app r y : Rrow_gen tight r ++ y = 92%N :: K_trowd ++ body_gen tight r ++ 92%N :: K_row ++ y.
+Proof. unfold Rrow_gen. cbn [app]. rewrite <- !app_assoc. reflexivity. Qed.
+
+Lemma fa_body_gen kw off cells y :
+  (forall z, startswith (K_cell ++ z) kw = false) -> forallb plain cells = true ->
+  re_find_all (m_word_b is_word kw) 0 off (body_gen tight cells ++ y)
+  = re_find_all (m_word_b is_word kw) 0 (off + length (body_gen tight cells)) y.
+Proof.
+  intros Hk. revert off. induction cells as [|t cs IH]; intros off H.
+  - cbn [body_gen map concat length app]. rewrite Nat.add_0_r. reflexivity.
+  - cbn [forallb] in H. apply andb_true_iff in H as [Ht Hc].
+    rewrite body_gen_length, body_gen_cons, <- app_assoc.
+    rewrite (fa_none_app _ nobs _ (pre_gen tight t)); [| apply m_word_b_nobs | apply pre_gen_nobs, Ht].
+    cbn [app]. rewrite <- app_assoc. rewrite (fa_miss_wb kw _ _ (Hk _)).
+    rewrite (fa_none_app _ nobs _ K_cell); [| apply m_word_b_nobs | reflexivity].
+    rewrite (IH _ Hc). f_equal. cbn [length K_cell]. slia2.
+Qed.
+
+Lemma fa_trowd_row_gen off r y : forallb plain r = true ->
+  re_find_all m_trowd 0 off (Rrow_gen tight r ++ y)
+  = (off, off + 6) :: re_find_all m_trowd 0 (off + length (Rrow_gen tight r)) y.
+Proof.
+  intro H. rewrite Rrow_gen_app, Rrow_gen_length.
+  destruct (body_gen_tail_head r 92%N (K_row ++ y) wd92) as (d & z & E & Hd).
+  rewrite E, (fa_hit_wb K_trowd off d z Hd), <- E.
+  rewrite (fa_body_gen K_trowd _ r _ (fun z => eq_refl) H).
+  rewrite (fa_miss_wb K_trowd) by reflexivity.
+  rewrite (fa_none_app _ nobs _ K_row); [| apply m_word_b_nobs | reflexivity].
+  f_equal. f_equal. cbn [length K_trowd K_row]. slia2.
+Qed.
+
+Lemma fa_row_row_gen off r d y : forallb plain r = true -> is_word d = false ->
+  re_find_all m_row 0 off (Rrow_gen tight r ++ d :: y)
+  = (off + length (Rrow_gen tight r) - 4, off + length (Rrow_gen tight r))
+    :: re_find_all m_row 0 (off + length (Rrow_gen tight r)) (d :: y).
+Proof.
+  intros H Hd. rewrite Rrow_gen_app, Rrow_gen_length.
+  rewrite (fa_miss_wb K_row) by reflexivity.
+  rewrite (fa_none_app _ nobs _ K_trowd); [| apply m_word_b_nobs | reflexivity].
+  rewrite (fa_body_gen K_row _ r _ (fun z => eq_refl) H).
+  rewrite (fa_hit_wb K_row _ d y Hd).
+  cbn [length K_trowd K_row]. f_equal; [f_equal; slia2 | f_equal; slia2].
+Qed.
+
+(* what a separator must satisfy *)
+Definition SepOK (sep : str) : Prop :=
+  (forall kw off y, (forall z, startswith (112%N :: z) kw = false) ->
+     re_find_all (m_word_b is_word kw) 0 off (sep ++ y) = re_find_all (m_word_b is_word kw) 0 (off + length sep) y)
+  /\ (forall d y, is_word d = false -> exists d' z, sep ++ d :: y = d' :: z /\ is_word d' = false)
+  /\ length sep <= 5.
+
+Variable sep : str.
+Hypothesis HS : SepOK sep.
+
+Definition rows_gen (g : list (list str)) : str := concat (map (fun r => Rrow_gen tight r ++ sep) g).
+Definition total_gen (g : list (list str)) : nat := length (rows_gen g).
+
+Lemma rows_gen_cons r g : rows_gen (r :: g) = Rrow_gen tight r ++ sep ++ rows_gen g.
+Proof. unfold rows_gen. cbn [map concat]. rewrite <- app_assoc. reflexivity. Qed.
+
+Lemma total_gen_cons r g : total_gen (r :: g) = length (Rrow_gen tight r) + length sep + total_gen g.
+Proof. unfold total_gen. rewrite rows_gen_cons, !app_length. slia2. Qed.
+
+Fixpoint spans_gen (off : nat) (g : list (list str)) : list (nat * nat) :=
+  match g with
+  | [] => []
+  | r :: g' => (off, off + length (Rrow_gen tight r)) :: spans_gen (off + length (Rrow_gen tight r) + length sep) g'
+  end.
+
+Lemma fa_trowd_rows_gen off g y : forallb (forallb plain) g = true ->
+  map fst (re_find_all m_trowd 0 off (rows_gen g ++ y))
+  = map fst (spans_gen off g) ++ map fst (re_find_all m_trowd 0 (off + total_gen g) y).
+Proof.
+  destruct HS as (S1 & _ & _). revert off. induction g as [|r g IH]; intros off H.
+  - cbn [rows_gen map concat app total_gen length spans_gen]. rewrite Nat.add_0_r. reflexivity.
+  - cbn [forallb] in H. apply andb_true_iff in H as [Hr Hg].
+    rewrite rows_gen_cons, <- !app_assoc. rewrite (fa_trowd_row_gen _ _ _ Hr). cbn [map fst spans_gen app].
+    rewrite (S1 K_trowd _ _ (fun z => eq_refl)), (IH _ Hg), total_gen_cons. do 4 f_equal. slia2.
+Qed.
+
+Lemma rows_gen_head g d y : is_word d = false ->
+  exists d0 y0, rows_gen g ++ d :: y = d0 :: y0 /\ is_word d0 = false.
+Proof.
+  intro H. destruct g as [|r g]; [exists d, y; split; [reflexivity|exact H]|].
+  rewrite rows_gen_cons. unfold Rrow_gen. cbn [app]. eexists _, _. split; [reflexivity|exact wd92].
+Qed.
+
+Lemma fa_row_rows_gen off g d y : forallb (forallb plain) g = true -> is_word d = false ->
+  map snd (re_find_all m_row 0 off (rows_gen g ++ d :: y))
+  = map snd (spans_gen off g) ++ map snd (re_find_all m_row 0 (off + total_gen g) (d :: y)).
+Proof.
+  destruct HS as (S1 & S2 & _). intros H Hd. revert off. induction g as [|r g IH]; intros off.
+  - cbn [rows_gen map concat app total_gen length spans_gen]. rewrite Nat.add_0_r. reflexivity.
+  - cbn [forallb] in H. apply andb_true_iff in H as [Hr Hg].
+    rewrite rows_gen_cons, <- !app_assoc.
+    destruct (rows_gen_head g d y Hd) as (d0 & y0 & E0 & Hd0).
+    destruct (S2 d0 y0 Hd0) as (d1 & y1 & E1 & Hd1).
+    rewrite E0, E1, (fa_row_row_gen _ _ _ _ Hr Hd1), <- E1, <- E0. cbn [map snd spans_gen app].
+    rewrite (S1 K_row _ _ (fun z => eq_refl)), (IH Hg), total_gen_cons. do 4 f_equal. slia2.
+Qed.
+
+Lemma Rrow_gen_pos r : 0 < length (Rrow_gen tight r).
+Proof. rewrite Rrow_gen_length. slia2. Qed.
+
+Lemma chain_spans_gen off g : chain off (spans_gen off g).
+Proof.
+  revert off. induction g as [|r g IH]; intro off; [constructor|].
+  cbn [spans_gen chain fst snd]. pose proof (Rrow_gen_pos r). repeat split; try slia2.
+  apply (chain_weaken _ (off + length (Rrow_gen tight r) + length sep)); [slia2 | apply IH].
+Qed.
+
+Fixpoint rows_of_gen (off : nat) (g : list (list str)) : list (nat * nat * str) :=
+  match g with
+  | [] => []
+  | r :: g' => (off, off + length (Rrow_gen tight r), Rrow_gen tight r)
+               :: rows_of_gen (off + length (Rrow_gen tight r) + length sep) g'
+  end.
+
+Lemma rows_slices_gen pre g post :
+  map (mk_row (pre ++ rows_gen g ++ post)) (spans_gen (length pre) g) = rows_of_gen (length pre) g.
+Proof.
+  revert pre. induction g as [|r g IH]; intro pre; [reflexivity|].
+  cbn [spans_gen rows_of_gen map]. unfold mk_row at 1. cbn [fst snd]. f_equal.
+  - rewrite rows_gen_cons, <- app_assoc. rewrite slice_mid. reflexivity.
+  - specialize (IH (pre ++ Rrow_gen tight r ++ sep)).
+    assert (E : length (pre ++ Rrow_gen tight r ++ sep) = length pre + length (Rrow_gen tight r) + length sep)
+      by (rewrite !app_length; slia2).
+    rewrite E in IH. rewrite <- IH. f_equal. f_equal. rewrite rows_gen_cons, <- !app_assoc. reflexivity.
+Qed.
+
+Lemma table_rows_gen g : forallb (forallb plain) g = true ->
+  rtf_table_rows is_word (K_P ++ rows_gen g ++ [125%N]) = rows_of_gen 12 g.
+Proof.
+  intro H. rewrite table_rows_unfold, fa_P_trowd, fa_P_row, (fa_trowd_rows_gen _ _ _ H),
+    (fa_row_rows_gen _ _ _ _ H wd125).
+  rewrite fa_end_trowd, fa_end_row. cbn [map]. rewrite !app_nil_r.
+  rewrite (pair_rows _ [] 12 (spans_gen 12 g)); [| intros e [] | apply chain_spans_gen].
+  exact (rows_slices_gen K_P g [125%N]).
+Qed.
+
+Lemma step_eq_gen text saved cur last a b r : r <> [] -> forallb plain r = true ->
+  rtf_group_step is_ws is_word text (saved, cur, last) (a, b, Rrow_gen tight r)
+  = if brk_cond text cur last a then (rtf_pad_rows (rev cur) :: saved, [r], Z.of_nat b)
+    else (saved, r :: cur, Z.of_nat b).
+Proof.
+  intros Hne H. unfold rtf_group_step. rewrite (row_cells_Rrow_gen r Hne H). fold (brk_cond text cur last a).
+  destruct (brk_cond text cur last a); destruct r; try congruence; reflexivity.
+Qed.
+
+Lemma brk_gap text cur off k : k <= 100 -> brk_cond text cur (Z.of_nat off - Z.of_nat k) off = false.
+Proof.
+  intro Hk. unfold brk_cond.
+  assert ((100 <? Z.of_nat off - (Z.of_nat off - Z.of_nat k))%Z = false) as -> by (apply Z.ltb_ge; slia2).
+  rewrite andb_false_r. reflexivity.
+Qed.
+
+Lemma fold_rows_cont_gen text saved cur off g :
+  nonempty_rows g = true -> forallb (forallb plain) g = true ->
+  fold_left (step text) (rows_of_gen off g) (saved, cur, (Z.of_nat off - Z.of_nat (length sep))%Z)
+  = (saved, rev g ++ cur, (Z.of_nat (off + total_gen g) - Z.of_nat (length sep))%Z).
+Proof.
+  assert (HL : length sep <= 100) by (destruct HS as (_ & _ & HL); slia2).
+  revert cur off. induction g as [|r g IH]; intros cur off Hn Hp.
+  - cbn [rows_of_gen fold_left rev app]. unfold total_gen, rows_gen. cbn [map concat length].
+    rewrite Nat.add_0_r. reflexivity.
+  - cbn [forallb] in Hn, Hp. apply andb_true_iff in Hn as [Hn1 Hn2]. apply andb_true_iff in Hp as [Hp1 Hp2].
+    cbn [rows_of_gen fold_left]. rewrite (step_eq_gen _ _ _ _ _ _ _ (nonnil_ne _ Hn1) Hp1), (brk_gap _ _ _ _ HL).
+    replace (Z.of_nat (off + length (Rrow_gen tight r)))
+      with (Z.of_nat (off + length (Rrow_gen tight r) + length sep) - Z.of_nat (length sep))%Z by slia2.
+    rewrite (IH _ _ Hn2 Hp2). cbn [rev]. rewrite <- app_assoc. cbn [app]. rewrite total_gen_cons.
+    do 2 f_equal. slia2.
+Qed.
+
+Lemma r_row_gen_eq r : rtf_r_row_gen tight sep r = Rrow_gen tight r ++ sep.
+Proof. unfold rtf_r_row_gen. rewrite !app_assoc. rewrite <- (app_assoc (s "\trowd")). reflexivity. Qed.
+
+Lemma doc_gen_eq g : rtf_r_doc_gen tight sep g = K_P ++ rows_gen g ++ [125%N].
+Proof.
+  unfold rtf_r_doc_gen, rows_gen. change (s "{\rtf1\ansi ") with K_P. change (s "}") with [125%N].
+  do 3 f_equal. apply map_ext. intro r. apply r_row_gen_eq.
+Qed.
+
+Lemma tables_single_gen_core g : g <> [] -> nonempty_rows g = true -> forallb (forallb plain) g = true ->
+  rtf_tables is_ws is_word (rtf_r_doc_gen tight sep g) = [rtf_pad_rows g].
+Proof.
+  intros Hne Hn Hp. rewrite doc_gen_eq. unfold rtf_tables. rewrite (table_rows_gen g Hp).
+  destruct g as [|r g]; [congruence|].
+  cbn [forallb] in Hn, Hp. apply andb_true_iff in Hn as [Hn1 Hn2]. apply andb_true_iff in Hp as [Hp1 Hp2].
+  cbn [rows_of_gen fold_left]. rewrite (step_eq_gen _ _ _ _ _ _ _ (nonnil_ne _ Hn1) Hp1), brk_nil.
+  replace (Z.of_nat (12 + length (Rrow_gen tight r)))
+    with (Z.of_nat (12 + length (Rrow_gen tight r) + length sep) - Z.of_nat (length sep))%Z by slia2.
+  rewrite (fold_rows_cont_gen _ _ _ _ _ Hn2 Hp2).
+  change (rev g ++ [r]) with (rev (r :: g)). rewrite is_nil_rev by discriminate. rewrite rev_involutive. reflexivity.
+Qed.
+
+End Gen.
+
+Lemma SepOK_nobs sep : forallb nobs sep = true ->
+  match sep with [] => True | c :: _ => is_word c = false end -> length sep <= 5 -> SepOK sep.
+Proof.
+  intros H1 H2 H3. repeat split; [| |exact H3].
+  - intros kw off y _. apply (fa_none_app _ nobs); [apply m_word_b_nobs | exact H1].
+  - intros d y Hd. destruct sep as [|c r]; [exists d, y; split; [reflexivity|exact Hd]|].
+    exists c, (r ++ d :: y). split; [reflexivity|exact H2].
+Qed.
+
+Lemma SepOK_pard : SepOK (92%N :: K_pard).
+Proof.
+  repeat split.
+  - intros kw off y Hk. cbn [app]. rewrite (fa_miss_wb kw _ (K_pard ++ y) (Hk _)).
+    rewrite (fa_none_app _ nobs _ K_pard); [| apply m_word_b_nobs | reflexivity]. f_equal. cbn [length K_pard]. slia2.
+  - intros d y _. eexists _, _. split; [reflexivity|exact wd92].
+  - cbn. slia2.
+Qed.
+
+Lemma sep_ok_SepOK sep : rtf_row_sep_ok sep = true -> SepOK sep.
+Proof.
+  unfold rtf_row_sep_ok. cbn [mem_str]. intro H.
+  repeat (apply orb_true_iff in H as [H|H]); try discriminate; apply str_eqb_eq in H; subst sep.
+  - apply SepOK_nobs; [reflexivity | exact I | cbn; slia2].
+  - apply SepOK_nobs; [reflexivity | exact wd32 | cbn; slia2].
+  - apply SepOK_nobs; [reflexivity | exact wd10 | cbn; slia2].
+  - apply SepOK_nobs; [reflexivity | exact wd125 | cbn; slia2].
+  - exact SepOK_pard.
+Qed.
+
+(* G1 *)
+Theorem rtf_row_cells_render_gen : forall tight cells, cells <> [] -> forallb plain cells = true ->
+  rtf_row_cells is_ws is_word (s "\trowd" ++ concat (map (rtf_r_cell_gen tight) cells) ++ s "\row") = cells.
+Proof. intros tight cells Hne H. exact (row_cells_Rrow_gen tight cells Hne H). Qed.
+
+(* G2 *)
+Theorem rtf_tables_single_gen : forall tight sep g, rtf_row_sep_ok sep = true -> g <> [] ->
+  nonempty_rows g = true -> forallb (forallb plain) g = true ->
+  rtf_tables is_ws is_word (rtf_r_doc_gen tight sep g) = [rtf_pad_rows g].
+Proof.
+  intros tight sep g Hs Hne Hn Hp. exact (tables_single_gen_core tight sep (sep_ok_SepOK sep Hs) g Hne Hn Hp).
+Qed.
+
 End Rtf.
 
 (* ------------------------------------------------------------------ closed instances (non-vacuity of the
@@ -1203,3 +1536,34 @@ Print Assumptions rtf_cell_text_first_ascii.
 Print Assumptions rtf_row_cells_render_ascii.
 Print Assumptions rtf_tables_single_ascii.
 Print Assumptions rtf_tables_long_separator_ascii.
+
+(* ------------------------------------------------------------------ render variants: closed instances *)
+Theorem rtf_row_cells_render_gen_ascii : forall tight cells, cells <> [] -> forallb (rtf_plain ws_ascii) cells = true ->
+  rtf_row_cells ws_ascii wd_ascii (s "\trowd" ++ concat (map (rtf_r_cell_gen tight) cells) ++ s "\row") = cells.
+Proof. intros tight cells H1 H2. apply rtf_row_cells_render_gen; try reflexivity; assumption. Qed.
+
+Theorem rtf_tables_single_gen_ascii : forall tight sep g, rtf_row_sep_ok sep = true -> g <> [] ->
+  forallb (fun r => negb (is_nil r)) g = true -> forallb (forallb (rtf_plain ws_ascii)) g = true ->
+  rtf_tables ws_ascii wd_ascii (rtf_r_doc_gen tight sep g) = [rtf_pad_rows g].
+Proof. intros tight sep g H0 H1 H2 H3. apply rtf_tables_single_gen; try reflexivity; assumption. Qed.
+
+Definition g4 : list (list str) :=
+  [[s "a"; []; s "c"]; [[]; s "e"; s "f"]; [s "g"; s "h"; []]; [s "j"; s "k"; s "l"]].
+
+Example rtf_gen_tight_nosep_witness : rtf_tables ws_ascii wd_ascii (rtf_r_doc_gen true [] g4) = [g4].
+Proof. vm_compute. reflexivity. Qed.
+
+Example rtf_gen_group_sep_witness : rtf_tables ws_ascii wd_ascii (rtf_r_doc_gen false (s "}{") g4) = [g4].
+Proof. vm_compute. reflexivity. Qed.
+
+Example rtf_group_offset0_witness :
+  rtf_tables ws_ascii wd_ascii (s "{\rtf1{\trowd a\cell\row\trowd b\cell\row}}") = [[[s "a"]; [s "b"]]].
+Proof. vm_compute. reflexivity. Qed.
+
+Print Assumptions rtf_row_cells_render_gen.
+Print Assumptions rtf_tables_single_gen.
+Print Assumptions rtf_row_cells_render_gen_ascii.
+Print Assumptions rtf_tables_single_gen_ascii.
+Print Assumptions rtf_gen_tight_nosep_witness.
+Print Assumptions rtf_gen_group_sep_witness.
+Print Assumptions rtf_group_offset0_witness.
